@@ -86,6 +86,13 @@ def match(ctx, rule: str, construct: str, m: core.Mod, fn: ast.FunctionDef, temp
         return False
     extra = fg - ft
     missing = ft - fg
+    import re as _re
+    moved = [str(e) for e in extra.elements() if _re.search(r"'(?:self|cls|self\.__class__)\._[a-z]\w*'|\('(?:attr|call|name)', '_[a-z]\w*'", str(e))]
+    if moved:
+        # the body hands part of its work to a private helper the reference shape does not have: a shape comparison of this body alone says
+        # nothing about the values computed
+        ctx.unverified(rule, construct, f"part of the body lives in a private helper ({moved[0]}); the reference shape does not apply", m.loc(fn))
+        return False
     ctx.ob(rule, construct, False,
            f"differs from the reference shape: unexpected {sorted(map(str, extra.elements()))[:6]}, missing "
            f"{sorted(map(str, missing.elements()))[:6]}. {why}", m.loc(fn))
